@@ -4,7 +4,7 @@ use feos::core::cubic::{PengRobinson, PengRobinsonParameters, PengRobinsonRecord
 use feos::core::parameter::{
     BinaryRecord, ChemicalRecord, Identifier, Parameter, ParameterHetero, PureRecord, SegmentRecord,
 };
-use feos::core::{Components, EquationOfState, Residual, State};
+use feos::core::{Components, EquationOfState, ReferenceSystem, Residual, State};
 use feos::epcsaft::{
     ElectrolytePcSaft, ElectrolytePcSaftBinaryRecord, ElectrolytePcSaftOptions,
     ElectrolytePcSaftParameters, ElectrolytePcSaftRecord, ElectrolytePcSaftVariants,
@@ -939,9 +939,18 @@ pub struct StateSpec {
 }
 
 pub fn gen_state(g: &mut Gen, n: usize) -> StateSpec {
+    let tau = g.range(0.4, 3.0);
+    // half of the cases log-uniform over the whole range, half uniform over gas-like to dense
+    let dense = g.bool(0.5);
+    let u = g.unit();
+    let f_eta = if dense {
+        0.02 + u * 0.88
+    } else {
+        (2e-6f64.ln() + u * (0.9f64.ln() - 2e-6f64.ln())).exp()
+    };
     StateSpec {
-        tau: g.range(0.4, 3.0),
-        f_eta: g.log_range(2e-6, 0.9),
+        tau,
+        f_eta,
         x: g.simplex(n, 1e-3),
         lambda: g.log_range(1e-3, 1e3),
     }
@@ -972,10 +981,20 @@ pub fn state_inputs(
 ) -> Result<(Temperature, Volume, Moles<Array1<f64>>), String> {
     let mut x = s.x.clone();
     neutralise(spec, &mut x);
-    let t = s.tau * t_scale(spec, model, &x);
+    let mut t = s.tau * t_scale(spec, model, &x);
+    if spec.family == Family::EPcSaft && spec.source.starts_with("shipped") {
+        // electrolyte solutions: the shipped permittivity correlations are fitted to 280-360 K
+        t = 280.0 + (s.tau - 0.4) / 2.6 * 90.0;
+    }
     let moles = Array1::from_vec(x.iter().map(|xi| xi * s.lambda).collect()) * MOL;
-    let rho_max = model.max_density(Some(&moles)).map_err(|e| e.to_string())?;
-    let rho = s.f_eta * rho_max;
+    let rho = if spec.family == Family::FmtFunctional {
+        // FMTFunctional::compute_max_density is only a rough guess (1.2/sigma); use the packing fraction
+        let sig = spec.fmt_sigma()?;
+        let v: f64 = x.iter().zip(sig.iter()).map(|(xi, s)| xi * std::f64::consts::FRAC_PI_6 * s.powi(3)).sum();
+        Density::from_reduced(s.f_eta * spec.opts.max_eta / v)
+    } else {
+        s.f_eta * model.max_density(Some(&moles)).map_err(|e| e.to_string())?
+    };
     let v = moles.sum() / rho;
     Ok((t * KELVIN, v, moles))
 }
